@@ -22,11 +22,18 @@ OUTSIDE = 'functions with more named parameters than the bound; more than two ne
 ASSUMPTIONS = ['foreign keywords are represented by one Boolean plus one explicit foreign name']
 
 
+_MAX_BOUND = [2]
+
+
+def cfg_max_bound():
+    return _MAX_BOUND[0]
+
+
 def _build(spec, tag):
     """Draw a binding and build the partial.  -> (p, fn, cnt, bound names, values dict, nested flag)"""
     npos = sum(1 for k in spec.kinds if k < 2)
     cnt = sym.pick(npos + 2, 'cnt')
-    bound = draw_names(name_pool(spec), 2, tag='bk')
+    bound = draw_names(name_pool(spec), cfg_max_bound(), tag='bk')
     nested = sym.flip('nested') if (cnt or bound) else False
     pvals = [sym.sym_val('pv') for _ in range(cnt)]
     kvals = dict((nm, sym.sym_val('kv')) for nm in bound)
@@ -43,6 +50,7 @@ def _partial(fn, cnt, bound, nested, pvals, kvals):
 
 
 def h_partial(ctx, cfg):
+    _MAX_BOUND[0] = cfg.get('max_bound', 2)
     spec = U.gen_sigs(1, cfg['K'])[0]
     cnt, bound, nested, pvals, kvals = _build(spec, 'f0')
     with sym.notrace():
@@ -159,6 +167,9 @@ def plan(tier):
                  bounds='functions with <=2 named parameters, 0..len+1 bound positionals, <=2 bound keywords (foreign included) in every order, nested or flat, symbolic bound values',
                  min_nontrivial=500, must_reach=['exact-sound', 'exact-complete', 'raise-only-if-uncallable',
                                                  'bound-value-is-default', 'absorbed-sourced-to-partial']),
+            dict(name='partial-K4-positionals', fn='h_partial', depth=9, budget_s=240, cfg=dict(K=4, max_bound=0),
+                 bounds='functions with <=4 named parameters, 0..len+1 bound positionals, no bound keywords, nested or flat',
+                 min_nontrivial=500),
             dict(name='discovery-K2', fn='h_discovery', depth=6, budget_s=120, cfg=dict(K=2),
                  bounds='wrapper(fn, [own], *args, **kwargs) forwarding to fn, callee with <=2 named parameters, bound positionally / by keyword',
                  min_nontrivial=100, must_reach=['discovery-sound', 'keyword-does-not-resolve']),
